@@ -85,7 +85,7 @@ func resetPermSeen() int {
 // ---------------------------------------------------------------------------
 
 type MWStep struct {
-	Op    string `json:"op"` // stmt txn refresh retry partial observe
+	Op    string `json:"op"` // stmt txn refresh retry partial observe vacuum vactxn
 	W     int    `json:"w"`
 	Stmts []Stmt `json:"stmts,omitempty"`
 	Ref   int    `json:"ref,omitempty"`  // retry: index into the list of statements issued so far
@@ -294,6 +294,22 @@ func genMWCase(t *rapid.T, g mwGenCfg) MWCase {
 			st.Vals = append(st.Vals, []Val{vInt(int64(i % 3))})
 		}
 		c.Steps = append([]MWStep{{Op: "stmt", W: 0, Stmts: []Stmt{st}}}, c.Steps...)
+	}
+	if g.wVacuum > 0 && rapid.IntRange(0, 5).Draw(t, "vactxnpattern") == 0 {
+		// Targeted region: s3db_vacuum called INSIDE a transaction that has joined the table
+		// without changing it (an UPDATE that matches no row), with something to purge, then
+		// ROLLBACK or COMMIT. The call may be refused or may run; either way the connection
+		// must go on reading its rows and nothing retained may refer to a deleted object.
+		w := rapid.IntRange(0, c.NWriters-1).Draw(t, "vtw")
+		key := rapid.SampledFrom(intKeys(c.NKeys)).Draw(t, "vtkey")
+		pat := []MWStep{
+			{Op: "stmt", W: w, Stmts: []Stmt{{Kind: "ins", Keys: []Val{key}, Cols: []string{"a"}, Vals: [][]Val{{vInt(1)}}, T: 50*256 + 1}}},
+			{Op: "stmt", W: w, Stmts: []Stmt{{Kind: "del", Keys: []Val{key}, T: 50*256 + 2}}},
+			{Op: "vactxn", W: w, Cut: -1, Rollback: rapid.IntRange(0, 2).Draw(t, "vtrollback") != 0},
+			{Op: "observe"},
+		}
+		pos := rapid.IntRange(0, len(c.Steps)).Draw(t, "vtpos")
+		c.Steps = append(append(append([]MWStep{}, c.Steps[:pos]...), pat...), c.Steps[pos:]...)
 	}
 	if g.wVacuum > 0 && c.NKeys >= 2 && rapid.IntRange(0, 2).Draw(t, "pattern2") == 0 {
 		// Targeted region: two rows deleted at different times and a cutoff between the two
@@ -802,6 +818,53 @@ func (r *mwRun) step1(i int, s MWStep, where string) error {
 		}
 		if err := r.publish(w); err != nil {
 			return fmt.Errorf("%s: %v", where, err)
+		}
+		return nil
+	case "vactxn":
+		w := r.ws[s.W]
+		before, err := w.conn.Dump(w.name)
+		if err != nil {
+			return fmt.Errorf("%s: scan before BEGIN: %v", where, err)
+		}
+		if err := w.conn.Exec("begin"); err != nil {
+			return fmt.Errorf("%s: begin: %v", where, err)
+		}
+		if err := w.conn.Exec("update "+w.name+" set a=1 where k=?", 999999); err != nil {
+			return fmt.Errorf("%s: UPDATE matching no row: %v", where, err)
+		}
+		verr := w.conn.Vacuum(w.name, farFuture)
+		end := "commit"
+		if s.Rollback {
+			end = "rollback"
+		}
+		if err := w.conn.Exec(end); err != nil {
+			return fmt.Errorf("%s: %s: %v", where, end, err)
+		}
+		if verr == nil {
+			// it ran: what it committed is the writer's rows with the purgeable markers forgotten
+			r.o.Class("vacuum-inside-transaction-ran")
+			w.view.Vacuum(1 << 40)
+			r.farVacuumed = true
+			for _, n := range currentVersions(r.store, r.prefix) {
+				if _, ok := r.pub[n]; !ok {
+					r.pub[n] = w.view.Clone()
+				}
+			}
+		} else {
+			r.o.Class("vacuum-inside-transaction-refused")
+		}
+		after, err := w.conn.Dump(w.name)
+		if err != nil {
+			return fmt.Errorf("%s: after s3db_vacuum inside a transaction that changed nothing (result: %v) and %s the connection can no longer read the table: %v", where, verr, strings.ToUpper(end), err)
+		}
+		if !after.Equal(before) {
+			return fmt.Errorf("%s: s3db_vacuum inside a transaction that changed nothing (result: %v), then %s: the visible rows changed.\nbefore:\n%safter:\n%s", where, verr, strings.ToUpper(end), before, after)
+		}
+		if err := r.checkWriter(s.W, where); err != nil {
+			return err
+		}
+		if _, problems := r.reach(r.store); len(problems) > 0 {
+			return fmt.Errorf("%s: after s3db_vacuum inside a transaction (result: %v) and %s: %v", where, verr, strings.ToUpper(end), problems[0])
 		}
 		return nil
 	case "retry":
